@@ -259,6 +259,12 @@ func filterForms(opcode string, forms []InstructionForm, operands ng_operand.Ope
 		return strictForms
 	}
 
+	// sreg を r16 とみなしてよいのは PUSH/POP (サイズの見積もり) だけ。他の命令でこの緩和を使うと
+	// ADD CX,ES や NOT ES, MOV [BX],ES がセグメントレジスタの番号を汎用レジスタとして黙ってエンコードしてしまう。
+	if u := strings.ToUpper(opcode); u != "PUSH" && u != "POP" {
+		return strictForms // 空 (マッチなし)
+	}
+
 	// 3. 条件緩和検索: sreg を r16 として扱う
 	//    (例: MOV r/m16, Sreg (Opcode 8C) のような命令に対応するため)
 	relaxedForms := lo.Filter(forms, func(form InstructionForm, _ int) bool {
